@@ -166,32 +166,37 @@ theorem drawCell_eq_plain (c : DrawCfg) (hct : c.cornerTrick = false) (s : Scr) 
 
 theorem visit_step {c : DrawCfg} (hrw : RwOk c.rw) (hrb : RwB c.rw) (hp : Utf8Payload c) (hct : c.cornerTrick = false)
     {s : Scr} {t : ATerm} {x y : Int} (inv : AInv c s t) (hr : s.cells.inRange x y) :
-    AdmitAll c t (s.visit c x y).2.1 ∧ AInv c (s.visit c x y).1 (t.applyAll (s.visit c x y).2.1) := by
+    AdmitAll c t (s.visit c x y).2.1 ∧ AInv c (s.visit c x y).1 (t.applyAll (s.visit c x y).2.1) ∧
+      1 ≤ (s.visit c x y).2.2 := by
   have hrel := visit_rel c s x y
   have hbuf := inv.buf.of_rel hrw hrel
   have hext := inv.ext.of_rel hrel
   have hd12 := applyAll_dims t (s.visit c x y).2.1
   -- reduce to drawCell's cache fields
   have hcx : (s.visit c x y).1.cx = (s.drawCellPlain c x y).1.cx ∧ (s.visit c x y).1.cy = (s.drawCellPlain c x y).1.cy ∧
-      (s.visit c x y).1.curstyle = (s.drawCellPlain c x y).1.curstyle ∧ (s.visit c x y).2.1 = (s.drawCellPlain c x y).2.1 := by
+      (s.visit c x y).1.curstyle = (s.drawCellPlain c x y).1.curstyle ∧ (s.visit c x y).2.1 = (s.drawCellPlain c x y).2.1 ∧
+      (s.visit c x y).2.2 = (s.drawCellPlain c x y).2.2 := by
     simp only [Scr.visit, drawCell_eq_plain c hct]
     split <;> simp
-  obtain ⟨e1, e2, e3, e4⟩ := hcx
+  obtain ⟨e1, e2, e3, e4, e5⟩ := hcx
   have hir : ∀ i j, (s.visit c x y).1.cells.inRange i j ↔ s.cells.inRange i j := by
     intro i j; simp only [inRange_iff, hrel.cw, hrel.ch]
   suffices H : AdmitAll c t (s.drawCellPlain c x y).2.1 ∧
       (s.cells.inRange (s.drawCellPlain c x y).1.cx (s.drawCellPlain c x y).1.cy →
         (t.applyAll (s.drawCellPlain c x y).2.1).cur = some ((s.drawCellPlain c x y).1.cx, (s.drawCellPlain c x y).1.cy)) ∧
       ((s.drawCellPlain c x y).1.curstyle ≠ styleInvalid →
-        (t.applyAll (s.drawCellPlain c x y).2.1).pen = some (s.drawCellPlain c x y).1.curstyle) by
-    rw [e4]
+        (t.applyAll (s.drawCellPlain c x y).2.1).pen = some (s.drawCellPlain c x y).1.curstyle) ∧
+      1 ≤ (s.drawCellPlain c x y).2.2 by
+    rw [e4, e5]
     refine ⟨H.1, { tw := by rw [← e4, hd12.1, inv.tw, hrel.w], th := by rw [← e4, hd12.2, inv.th, hrel.h], buf := hbuf,
-                   kcur := ?_, kpen := ?_, ext := hext }⟩
+                   kcur := ?_, kpen := ?_, ext := hext }, H.2.2.2⟩
     · intro h; rw [e1, e2]; rw [hir, e1, e2] at h; exact H.2.1 h
-    · intro h; rw [e3]; rw [e3] at h; exact H.2.2 h
+    · intro h; rw [e3]; rw [e3] at h; exact H.2.2.1 h
   cases hd : s.cells.dirty x y
   · rw [Scr.drawCellPlain_clean c s x y hd]
-    exact ⟨trivial, inv.kcur, inv.kpen⟩
+    refine ⟨trivial, inv.kcur, inv.kpen, ?_⟩
+    rw [getContent_wok hrw s.cells x y hr (inv.buf.wok x y)]
+    exact (obsWidth_pos hrw _).1
   · rw [Scr.drawCellPlain_dirty c s x y hd]
     have hgc := getContent_wok hrw s.cells x y hr (inv.buf.wok x y)
     rw [hgc]
@@ -201,6 +206,7 @@ theorem visit_step {c : DrawCfg} (hrw : RwOk c.rw) (hrb : RwB c.rw) (hp : Utf8Pa
     generalize Scr.cellText c s.w x (obsMain c.rw (s.cells.cells x y).currMain) (s.cells.cells x y).currComb
       (obsWidth c.rw (s.cells.cells x y).currMain) = tx at PT
     obtain ⟨hpay, hfit⟩ := PT
+    have hw1 : 1 ≤ tx.2 := by obtain ⟨_, _, _, _, _, _, _, h12, _⟩ := hpay; omega
     have hxy : 0 ≤ x ∧ 0 ≤ y ∧ x < s.w ∧ y < s.h := by
       have := inv.buf.cw; have := inv.buf.ch; simp only [inRange_iff] at hr; omega
     have hsz := inv.ext.size
@@ -265,7 +271,7 @@ theorem visit_step {c : DrawCfg} (hrw : RwOk c.rw) (hrb : RwB c.rw) (hp : Utf8Pa
       ⟨x, y, st', cur2, pen2, hin, by rw [dim2.1, dim1.1, inv.tw]; exact hfit hxy.2.2.1, hpay⟩
     have e3' : t2.apply (Cmd.put tx.1 tx.2) = t2.putAt x y tx.1 tx.2 st' := by
       simp only [ATerm.apply, cur2, pen2, if_pos hin]
-    refine ⟨?_, ?_, ?_⟩
+    refine ⟨?_, ?_, ?_, hw1⟩
     · rw [admitAll_append]; refine ⟨ad1, ?_⟩
       rw [ht1, admitAll_append]; exact ⟨ad2, by rw [ht2]; exact ⟨ad3, trivial⟩⟩
     · intro hrange
@@ -277,5 +283,104 @@ theorem visit_step {c : DrawCfg} (hrw : RwOk c.rw) (hrb : RwB c.rw) (hp : Utf8Pa
     · intro _
       rw [applyAll_append, applyAll_append, ht1, ht2]
       simp only [ATerm.applyAll, List.foldl_cons, List.foldl_nil, e3', ATerm.putAt_pen, pen2]
+
+/-! ## rows, the double loop, a whole draw -/
+
+theorem drawRow_admits {c : DrawCfg} (hrw : RwOk c.rw) (hrb : RwB c.rw) (hp : Utf8Payload c) (hct : c.cornerTrick = false) (y : Int) :
+    ∀ (fuel : Nat) (x : Int) (s : Scr) (t : ATerm), 0 ≤ x → 0 ≤ y → y < s.h → AInv c s t →
+      AdmitAll c t (Scr.drawRow c y fuel x s).2 ∧ AInv c (Scr.drawRow c y fuel x s).1 (t.applyAll (Scr.drawRow c y fuel x s).2) := by
+  intro fuel
+  induction fuel with
+  | zero => intro x s t _ _ _ inv; exact ⟨trivial, inv⟩
+  | succ n ih =>
+    intro x s t hx0 hy0 hy1 inv
+    rw [drawRow_succ]
+    by_cases hlt : x < s.w
+    · rw [if_pos hlt]; simp only
+      have hr : s.cells.inRange x y := by
+        have := inv.buf.cw; have := inv.buf.ch; simp only [inRange_iff]; omega
+      obtain ⟨ad, inv', hw⟩ := visit_step hrw hrb hp hct inv hr
+      have hh : (s.visit c x y).1.h = s.h := (visit_rel c s x y).h
+      have r := ih (x + (s.visit c x y).2.2) (s.visit c x y).1 (t.applyAll (s.visit c x y).2.1) (by omega) hy0
+        (by rw [hh]; exact hy1) inv'
+      rw [admitAll_append, applyAll_append]
+      exact ⟨⟨ad, r.1⟩, r.2⟩
+    · rw [if_neg hlt]; exact ⟨trivial, inv⟩
+
+theorem drawRows_admits {c : DrawCfg} (hrw : RwOk c.rw) (hrb : RwB c.rw) (hp : Utf8Payload c) (hct : c.cornerTrick = false) :
+    ∀ (fuel : Nat) (y : Int) (s : Scr) (t : ATerm), 0 ≤ y → AInv c s t →
+      AdmitAll c t (Scr.drawRows c fuel y s).2 ∧ AInv c (Scr.drawRows c fuel y s).1 (t.applyAll (Scr.drawRows c fuel y s).2) := by
+  intro fuel
+  induction fuel with
+  | zero => intro y s t _ inv; exact ⟨trivial, inv⟩
+  | succ n ih =>
+    intro y s t hy0 inv
+    rw [drawRows_succ]
+    by_cases hlt : y < s.h
+    · rw [if_pos hlt]; simp only
+      obtain ⟨ad, inv'⟩ := drawRow_admits hrw hrb hp hct y s.w.toNat 0 s t (by omega) hy0 hlt inv
+      have r := ih (y + 1) _ _ (by omega) inv'
+      rw [admitAll_append, applyAll_append]
+      exact ⟨⟨ad, r.1⟩, r.2⟩
+    · rw [if_neg hlt]; exact ⟨trivial, inv⟩
+
+/-- what a draw needs to be admissible: sizes agree, the buffer invariants — nothing about the display -/
+structure PreA (c : DrawCfg) (s : Scr) (t : ATerm) : Prop where
+  tw : t.w = s.w
+  th : t.h = s.h
+  buf : BufOkS c s
+  ext : BInv c s
+
+/-- **every command of a draw is admissible**, whatever the display holds -/
+theorem draw_admits {c : DrawCfg} (hrw : RwOk c.rw) (hrb : RwB c.rw) (hp : Utf8Payload c) (hct : c.cornerTrick = false)
+    (hhide : c.hasHide = true) {s : Scr} {t : ATerm} (pre : PreA c s t) : AdmitAll c t (s.draw c).2 := by
+  rw [draw_eq]; simp only
+  generalize hs0 : ({ s with cx := -1, cy := -1, curstyle := styleInvalid } : Scr) = s0
+  have inv0 : AInv c s0 t := by
+    rw [← hs0]
+    exact { tw := pre.tw, th := pre.th, buf := ⟨pre.buf.cw, pre.buf.ch, pre.buf.wok, pre.buf.valid⟩,
+            kcur := by intro h; simp only [inRange_iff] at h; omega,
+            kpen := by intro h; exact absurd rfl h,
+            ext := ⟨pre.ext.buf, pre.ext.style, pre.ext.size, pre.ext.ccol⟩ }
+  have hcx0 : s0.cx = -1 ∧ s0.curstyle = styleInvalid := by rw [← hs0]; exact ⟨rfl, rfl⟩
+  -- hide
+  have e1 : s0.hideCursor c = (s0, [Cmd.hideCursor]) := by simp [Scr.hideCursor, hhide]
+  rw [e1]; simp only
+  have inv1 : AInv c s0 (t.applyAll [Cmd.hideCursor]) :=
+    { tw := inv0.tw, th := inv0.th, buf := inv0.buf, kcur := inv0.kcur, kpen := inv0.kpen, ext := inv0.ext }
+  generalize ht1 : t.applyAll [Cmd.hideCursor] = t1 at inv1
+  -- clear
+  have S2 : AdmitAll c t1 (if s0.clear then s0.clearScreen else (s0, [])).2 ∧
+      AInv c (if s0.clear then s0.clearScreen else (s0, [])).1 (t1.applyAll (if s0.clear then s0.clearScreen else (s0, [])).2) := by
+    cases hcl : s0.clear
+    · simp only [Bool.false_eq_true, if_false]; exact ⟨trivial, inv1⟩
+    · simp only [if_true, Scr.clearScreen]
+      refine ⟨⟨trivial, trivial⟩, ?_⟩
+      exact { tw := inv1.tw, th := inv1.th, buf := ⟨inv1.buf.cw, inv1.buf.ch, inv1.buf.wok, inv1.buf.valid⟩,
+              kcur := by intro h; simp only [inRange_iff, hcx0.1] at h; omega,
+              kpen := by intro h; exact absurd hcx0.2 h,
+              ext := ⟨inv1.ext.buf, inv1.ext.style, inv1.ext.size, inv1.ext.ccol⟩ }
+  generalize (if s0.clear then s0.clearScreen else (s0, [])) = r2 at S2
+  obtain ⟨ad2, inv2⟩ := S2
+  generalize ht2 : t1.applyAll r2.2 = t2 at inv2
+  -- the double loop
+  obtain ⟨ad3, inv3⟩ := drawRows_admits hrw hrb hp hct r2.1.h.toNat 0 r2.1 t2 (by omega) inv2
+  generalize hr3 : Scr.drawRows c r2.1.h.toNat 0 r2.1 = r3 at ad3 inv3
+  generalize ht3 : t2.applyAll r3.2 = t3 at inv3
+  -- the cursor
+  have S4 : AdmitAll c t3 (r3.1.showCursor c).2 := by
+    unfold Scr.showCursor; simp only
+    split
+    · simp [Scr.hideCursor, hhide, AdmitAll, Admit]
+    · rename_i hin
+      have := inv3.buf.cw; have := inv3.buf.ch; have := inv3.ext.size
+      exact ⟨⟨by omega, by omega, by omega, by omega⟩, inv3.ext.ccol, trivial⟩
+  have ha : AdmitAll c t ([Cmd.hideCursor] ++ r2.2 ++ r3.2 ++ (r3.1.showCursor c).2) := by
+    rw [admitAll_append, admitAll_append, admitAll_append]
+    refine ⟨⟨⟨⟨trivial, trivial⟩, ?_⟩, ?_⟩, ?_⟩
+    · rw [ht1]; exact ad2
+    · rw [applyAll_append, ht1, ht2]; exact ad3
+    · rw [applyAll_append, applyAll_append, ht1, ht2, ht3]; exact S4
+  exact ha
 
 end Tcell.LayerB
